@@ -213,6 +213,10 @@ func (in *Interp) convert(v Value, from, to types.Type) Value {
 		if sl, ok := tu.(*types.Slice); ok {
 			t := v.(*Term)
 			if t.op != OpConstStr {
+				if eb, ok := sl.Elem().Underlying().(*types.Basic); ok && eb.Kind() == types.Byte {
+					// the bytes of a symbolic string: opaque, only consumable by the hash models
+					return SymBytesV{S: t}
+				}
 				panic(unsupported("symbolic string -> slice conversion"))
 			}
 			if eb, ok := sl.Elem().Underlying().(*types.Basic); ok && eb.Kind() == types.Byte {
